@@ -259,7 +259,12 @@ func (p *Proxy) handleLoop(conn net.Conn) {
 		deadline := time.Now().Add(p.timeout)
 		conn.SetDeadline(deadline)
 
-		if err := p.handle(ctx, conn, brw); isCloseable(err) {
+		// The session's connection changes when a CONNECT tunnel is upgraded to
+		// TLS for MITM. Later requests are read from the upgraded connection, so
+		// handle them on it: they must carry its TLS state like the first one.
+		hconn, hbrw := s.connection()
+
+		if err := p.handle(ctx, hconn, hbrw); isCloseable(err) {
 			log.Debugf("martian: closing connection: %v", conn.RemoteAddr())
 			return
 		}
